@@ -1,9 +1,10 @@
 package props
 
 import (
-	"strings"
 	"bytes"
 	"io"
+	"strconv"
+	"strings"
 	"testing"
 
 	"pault.ag/go/debian/deb"
@@ -26,7 +27,7 @@ func (e eagerEOFReaderAt) ReadAt(p []byte, off int64) (int, error) {
 }
 
 type ArCase struct {
-	EagerEOF bool       `json:"eagerEOF,omitempty"` // read through eagerEOFReaderAt instead of bytes.Reader
+	EagerEOF bool `json:"eagerEOF,omitempty"` // read through eagerEOFReaderAt instead of bytes.Reader
 	// Used: 0 = a fresh bytes.Reader; 1 = a bytes.Reader some of which was already Read (a caller
 	// sniffing the magic); 2 = one that was read to its end (hashed); 3 = a strings.Reader seeked
 	// into the middle; 4 = an io.SectionReader over a larger buffer (junk in front, more behind). ReadAt does not care where the Read position stands.
@@ -34,6 +35,9 @@ type ArCase struct {
 	Members []ArMember `json:"members"`
 	Half    int        `json:"half"` // member read half-way before the iterator advances
 	Offs    []int      `json:"offs"` // ReadAt probe offsets (taken modulo the member size)
+	// Repeat > 1: the archive holds the member list Repeat times over (thousands of members: an
+	// archive is as long as it is, a .deb's three or four are not a limit of the format)
+	Repeat int `json:"repeat,omitempty"`
 }
 
 func genArCase(t *rapid.T) ArCase {
@@ -61,6 +65,15 @@ func genArCase(t *rapid.T) ArCase {
 		c.Half = rapid.IntRange(0, n-1).Draw(t, "half")
 	}
 	c.Offs = rapid.SliceOfN(rapid.IntRange(0, 9000), 1, 4).Draw(t, "offs")
+	if n >= 2 && rapid.IntRange(0, 39).Draw(t, "long") == 0 {
+		for i := range c.Members {
+			if len(c.Members[i].Data) > 90 {
+				c.Members[i].Data = c.Members[i].Data[:rapid.IntRange(0, 90).Draw(t, "short")]
+				c.Members[i].BlankSize = false
+			}
+		}
+		c.Repeat = rapid.SampledFrom([]int{300, 600, 1025, 2049, 3000}).Draw(t, "repeat")
+	}
 	c.EagerEOF = rapid.IntRange(0, 3).Draw(t, "eagerEOF") == 0
 	if !c.EagerEOF {
 		c.Used = rapid.SampledFrom([]int{0, 0, 0, 1, 2, 3, 4, 4}).Draw(t, "used")
@@ -102,10 +115,21 @@ func expectEntry(e *deb.ArEntry, m ArMember, i int) error {
 
 var specC13 = Register(&Spec[ArCase]{
 	Prop: "C13", Name: "members",
-	Rule: "ar archives rendered by an independent writer from a member-list model: 0..8 members; names of 1..16 bytes over [A-Za-z0-9._+-] (16-byte class), optional GNU '/' terminator; mtime < 10^12, uid/gid < 10^6, mode up to 8 octal digits, each numeric column independently blank; data empty, 1 byte, odd, even, up to 8 KiB, or built from look-alike headers / the global magic / header terminators; one newline pad after odd sizes (also after the last member); read through bytes.Reader or (1/4) through a conforming ReaderAt that returns io.EOF together with a read ending exactly at the end of the input. Oracle: LoadAr + Next() return exactly the model sequence (Name, Timestamp, OwnerID, GroupID, FileMode, Size), io.ReadAll(Data) == data; a member read half-way before the iterator advances finishes with the right bytes; a second iterator opened on the same ReaderAt and advanced one step behind sees the same members; after exhaustion Next() returns io.EOF repeatedly and every earlier Data reader still yields its bytes after Seek(0,0) and via ReadAt at generated offsets. Non-trivial: >= 2 members, or a zero-length / odd-length / 16-byte-name member; distinct by archive.",
+	Rule: "ar archives rendered by an independent writer from a member-list model: 0..8 members (1 archive in 40: a list of 2..8 short members 300 to 3000 times over, up to 24 000 members); names of 1..16 bytes over [A-Za-z0-9._+-] (16-byte class), optional GNU '/' terminator; mtime < 10^12, uid/gid < 10^6, mode up to 8 octal digits, each numeric column independently blank; data empty, 1 byte, odd, even, up to 8 KiB, or built from look-alike headers / the global magic / header terminators; one newline pad after odd sizes (also after the last member); read through bytes.Reader or (1/4) through a conforming ReaderAt that returns io.EOF together with a read ending exactly at the end of the input. Oracle: LoadAr + Next() return exactly the model sequence (Name, Timestamp, OwnerID, GroupID, FileMode, Size), io.ReadAll(Data) == data; a member read half-way before the iterator advances finishes with the right bytes; a second iterator opened on the same ReaderAt and advanced one step behind sees the same members; after exhaustion Next() returns io.EOF repeatedly and every earlier Data reader still yields its bytes after Seek(0,0) and via ReadAt at generated offsets. Non-trivial: >= 2 members, or a zero-length / odd-length / 16-byte-name member; distinct by archive.",
 	Check: func(c ArCase, r *Recorder) error {
 		nt := len(c.Members) >= 2
 		cl := []string{}
+		if c.Repeat > 1 {
+			if c.Repeat*len(c.Members) > 100000 {
+				return errf("HARNESS: %d members", c.Repeat*len(c.Members))
+			}
+			one := c.Members
+			c.Members = make([]ArMember, 0, c.Repeat*len(one))
+			for k := 0; k < c.Repeat; k++ {
+				c.Members = append(c.Members, one...)
+			}
+			cl = append(cl, "more-than-"+strconv.Itoa(len(c.Members)/1000*1000)+"-members")
+		}
 		oddThenMore := false
 		for i, m := range c.Members {
 			if len(m.Data) == 0 {
